@@ -776,6 +776,8 @@ func c19Trees(c *mon.Ctx) {
 	cleanPrefixes := []string{"m@v", "example.com/m@v1.0.0", "", "p", "a/b/c", "with space@v1", "é@v1", "a", "dbl  space", "/abs/p"}
 	uncleanPrefixes := []string{"m@v/", "./m", "a//b", "a/../b", "m/.", "/", "."}
 
+	c19AfterRefusals(c, base)
+
 	nTrees := c.Share(c.Scale(3_000, 50_000))
 	for i := 0; i < nTrees; i++ {
 		id := fmt.Sprintf("d%d", i)
